@@ -169,11 +169,13 @@ def resolveProps : List (List Char × SVal) → Option (List (String × PVal))
 def resolve (name : List Char) (sh : Option SVal) (ps : List (List Char × SVal)) : Option (List (String × PVal)) :=
   resolveProps ((match sh with | some v => [(name, v)] | none => []) ++ ps)
 
+/-- set a property in the association list that stands for the attribute's property map -/
+def putProp (k : String) (v : PVal) : List (String × PVal) → List (String × PVal)
+  | [] => [(k, v)]
+  | (k', v') :: r => if k' == k then (k, v) :: r else (k', v') :: putProp k v r
+
 /-- the properties of an attribute: a later property of the same name replaces the value of an earlier one -/
-def asMap : List (String × PVal) → List (String × PVal) → List (String × PVal)
-  | acc, [] => acc
-  | acc, (k, v) :: ps =>
-    asMap (if acc.any (·.1 == k) then acc.map (fun p => if p.1 == k then (k, v) else p) else acc ++ [(k, v)]) ps
+def asMap (ps : List (String × PVal)) : List (String × PVal) := ps.foldl (fun m p => putProp p.1 p.2 m) []
 
 def lookup (ps : List (String × PVal)) (k : String) : Option PVal :=
   match ps with
@@ -254,7 +256,7 @@ deriving Repr
 
 def closeAttr (o : Open) (stop : Nat) : Attr :=
   { name := o.name, position := o.pos, length := (stop : Int) - (o.pos : Int), sourcePosition := o.src,
-    props := asMap [] o.props }
+    props := asMap o.props }
 
 /-- does the marker ask to drop one following white space character? `none`: `trimwhitespace` is not a boolean -/
 def trimRule (s : St) (isSelf isRepl : Bool) (ps : List (String × PVal)) : Option Bool :=
@@ -279,8 +281,8 @@ def stepChunk (s : St) (c : Chunk) : Option St :=
   | .text [] => some s
   | .text (c :: cs) =>
     let kept := if s.trimNext && isSpace c then cs else c :: cs
-    let lastWs := match kept.getLast? with | some d => isSpace d | none => s.lastWs
-    some { s with out := s.out ++ kept, src := s.src + len, lastWs := lastWs, trimNext := false }
+    some { s with out := s.out ++ kept, src := s.src + len, lastWs := (kept.getLast?.map isSpace).getD s.lastWs,
+                  trimNext := false }
   | .escOpen => some { s with out := s.out ++ ['['], src := s.src + 1, trimNext := false }
   | .escClose => some { s with out := s.out ++ [']'], src := s.src + 1, trimNext := false }
   | .opn n sh ps _ => do
@@ -293,7 +295,7 @@ def stepChunk (s : St) (c : Chunk) : Option St :=
     let trim ← trimRule s true (isReplName n) props
     let text ← (if isReplName n then replacement n props none else some [])
     let a : Attr := { name := String.ofList n, position := s.out.length, length := 0, sourcePosition := s.src,
-                      props := asMap [] props }
+                      props := asMap props }
     pure { s with out := s.out ++ text, src := s.src + len, attrs := s.attrs ++ [a], lastWs := false, trimNext := trim }
   | .close n _ => do
     let (o, os) ← removeLast (String.ofList n) s.opens
